@@ -136,6 +136,17 @@ def gen(ctx, opaque=False):
     return c
 
 
+def population_search(ctx):
+    """failing-input search over a fresh population (also used when an exception raised inside the implementation
+    ended the correspondence run early)"""
+    for i in range(300):
+        c = gen(ctx, opaque=True)
+        why, tags = oracle(c)
+        if why:
+            ctx.fail(why, c, tags)
+            return
+
+
 def run(ctx):
     ctx.rule = ('random algebraic trees (poly/bilinear/const/delay/split/pipe, unequal delays) fitted with and '
                 'without an episode feature, on multi-episode tagged-integer data; all 2 (fit flag) x 3 (call flag) '
@@ -190,12 +201,7 @@ def run(ctx):
             if why:
                 ctx.fail(why, fc, tags)
                 return
-        for i in range(300):
-            c = gen(ctx, opaque=True)
-            why, tags = oracle(c)
-            if why:
-                ctx.fail(why, c, tags)
-                return
+        population_search(ctx)
     return ctx.finish('proof', search)
 
 
